@@ -17,6 +17,9 @@ CHECKS = {
     "C02": dict(cat="proof", ref="6 C02",
                 text="for every command class: decode(build(args)) returns every constructor argument under exactly one key at the full width the standard gives the field (all fields symbolic at once), encode(decode(cdb)) reproduces the bytes, and encode/decode are inverse on every byte string of the CDB's length whose undefined bits are zero; z3 per clause",
                 note=TRUST + "the library's key names are discovered by probing the real code, not read from its tables; for the SAT LBA the dictionary carries the scattered wire field (compared as such); non-interference between fields follows from the joint quantification"),
+    "C04": dict(cat="other", ref="6 C04",
+                text="mixed, hence 'other': for every response format the library parses, the spec encoder (standard's positions, spec/data_formats.py) builds the response from symbolic field values, the real parser is interpreted on it and every key must come back with the encoded value. Fixed formats (standard INQUIRY, VPD B0/B1/B2/B3/86/89, READ CAPACITY 10/16, PR IN READ RESERVATION / REPORT CAPABILITIES, READ DISC INFORMATION x3) are complete proofs over all field values, with and without trailing buffer space. List formats (VPD 00/80/83 with every designator kind and NAA format, MODE SENSE 6/10 with every page format, GET LBA STATUS, REPORT LUNS, REPORT PRIORITY, REPORT TARGET PORT GROUPS, READ ELEMENT STATUS, PR IN READ KEYS / READ FULL STATUS, TransportIDs, READ CD sector layouts) are proved for all field values over enumerated shapes (descriptor counts 0..3, thorough 0..8) -> bounded in the count; lengths honoured: nothing beyond the reported length may be returned",
+                note=TRUST + "two recorded known findings (MODE SENSE decoders ignore MODE DATA LENGTH and return one page; pinned by existing tests); iSCSI names and READ CD layouts are representatives; ATA signature / IDENTIFY configuration words, SOP TransportID and the PCIe routing designator are left unchecked (standard text not certain)"),
     "C07": dict(cat="proof", ref="6 C07",
                 text="SCSIDevice.execute and ISCSIDevice.execute interpreted over stub bindings whose status byte (all 256 values) and sense buffer contents are symbolic, raw-sense capture on and off: normal return only for GOOD (or CHECK CONDITION reported through the raw sense attached on request), CHECK CONDITION raises the device's CheckCondition carrying key/ASC/ASCQ of exactly these bytes, each named status raises the error of that name (iSCSI), everything else raises; the facade half (errors propagate, nothing decoded) is discharged on the C13 units",
                 note=TRUST + "assumed contracts of sgio.execute / iscsi.Task / Context.command (listed in the evidence); on SG_IO the library never sees a status byte, so 'named error' applies to iSCSI only"),
